@@ -4,7 +4,10 @@
    and off) and of other cells, optionally an end box and what follows); its meaning is [srow_runs] with the STL character
    handler as decoder.  The teletext slice proves that the shared row parser returns that meaning
    (stl_parse_row_encoded); Proofs/StlTtxAgree.v proves that Model/Stl.v's stl_ttx_row is the shared parser.  Here the
-   two are put together for the reader's rows (rows_ttx), with the text field split at 0x8A. *)
+   two are put together for the reader's rows (rows_ttx), with the text field split at 0x8A.  A row of the text field
+   ([brow]) is such a row with its start box written, or - when nothing stands in front of the box and no other cell is a
+   start box - omitted: the reader reads a row without any 0x0B as if one stood in front of it, and WriteToSTL never
+   writes one (Proofs/StlWriteRendering.v). *)
 From Coq Require Import List ZArith NArith Bool Lia.
 From Astisub Require Import Kit.Base Kit.Str Kit.Scan Model.Dur Model.Stl Model.TtxRow Model.TtxRowStl Gen.StlTables
   Proofs.TtxRowStlProofs Proofs.StlTtxAgree Proofs.StlReadRows.
@@ -67,28 +70,52 @@ Proof.
 Qed.
 
 (* ---- the text field ---- *)
-Definition trow_okb (r : srow) : bool :=
-  srow_ok r && forallb (fun b => negb (b =? 138) && (b <? 256)) (srow_cells r)
-  && match snd (denote_trow None r) with None => true | Some _ => false end.   (* no floating accent left pending *)
-Definition tfield_bytes (rows : list srow) : str := join [138] (map srow_cells rows).
-Definition trows_ok (rows : list srow) : bool :=
+(* a row of the text field: a structured row whose start box is written ([br_box = true]: the cells are [srow_cells]) or
+   omitted ([br_box = false]: nothing in front of the box, the cells are those after the box and contain no 0x0B).  The
+   reader reads a row without any start box as if one stood in front of it (rows_ttx), so both mean the same; the
+   library's writer never writes the start box. *)
+Record brow := mkBrow { br_box : bool; br_row : srow }.
+Definition brow_inner (r : srow) : list N :=
+  flat_map (fun g => ss_codes g ++ ss_cells g) (sr_segs r) ++ match sr_end r with Some j => 10 :: j | None => [] end.
+Definition brow_cells (b : brow) : list N := if br_box b then srow_cells (br_row b) else brow_inner (br_row b).
+Lemma srow_cells_inner r : srow_cells r = sr_pre r ++ 11 :: brow_inner r.
+Proof. reflexivity. Qed.
+(* the start box may be omitted only when nothing stands in front of it and no cell of the row is a start box *)
+Definition brow_box_okb (b : brow) : bool :=
+  br_box b || (match sr_pre (br_row b) with [] => true | _ => false end && negb (nmem 11 (brow_inner (br_row b)))).
+Definition trow_okb (b : brow) : bool :=
+  srow_ok (br_row b) && forallb (fun c => negb (c =? 138) && (c <? 256)) (brow_cells b)
+  && brow_box_okb b
+  && match snd (denote_trow None (br_row b)) with None => true | Some _ => false end.   (* no floating accent left pending *)
+Definition tfield_bytes (rows : list brow) : str := join [138] (map brow_cells rows).
+Definition trows_ok (rows : list brow) : bool :=
   match rows with [] => false | _ => true end && forallb trow_okb rows && Nat.eqb (length (tfield_bytes rows)) 112.
-Definition denote_trows (rows : list srow) : list (list erun) :=
-  filter (fun l => match l with [] => false | _ => true end) (map (fun r => fst (denote_trow None r)) rows).
+Definition denote_trows (rows : list brow) : list (list erun) :=
+  filter (fun l => match l with [] => false | _ => true end) (map (fun r => fst (denote_trow None (br_row r))) rows).
 
 Lemma srow_has_box r : nmem 11 (srow_cells r) = true.
 Proof.
   unfold nmem, srow_cells. rewrite existsb_app. apply orb_true_iff. right. cbn [existsb]. reflexivity.
 Qed.
+(* the cells the reader hands to the row parser: the row itself, or the row with a start box put in front *)
+Lemma brow_boxed b : brow_box_okb b = true ->
+  (if nmem 11 (brow_cells b) then brow_cells b else 11 :: brow_cells b) = srow_cells (br_row b).
+Proof.
+  unfold brow_box_okb, brow_cells. destruct (br_box b); cbn [orb]; intros H.
+  - rewrite srow_has_box. reflexivity.
+  - apply andb_true_iff in H. destruct H as [Hpre Hno]. apply negb_true_iff in Hno. rewrite Hno.
+    rewrite srow_cells_inner. destruct (sr_pre (br_row b)); [reflexivity | discriminate].
+Qed.
 
 Lemma rows_ttx_fold : forall rows lines, forallb trow_okb rows = true ->
-  rows_ttx (map srow_cells rows) None lines = (rev lines ++ denote_trows rows, None).
+  rows_ttx (map brow_cells rows) None lines = (rev lines ++ denote_trows rows, None).
 Proof.
   induction rows as [|r rs IH]; intros lines H; [cbn [map rows_ttx denote_trows filter]; rewrite app_nil_r; reflexivity|].
   cbn [forallb] in H. apply andb_true_iff in H. destruct H as [Hr Hrs]. unfold trow_okb in Hr.
-  apply andb_true_iff in Hr. destruct Hr as [Hr Hacc]. apply andb_true_iff in Hr. destruct Hr as [Hok _].
-  cbn [map rows_ttx]. rewrite srow_has_box. rewrite (ttx_row_rendered None r Hok).
-  unfold denote_trows. cbn [map filter]. destruct (denote_trow None r) as [l acc'] eqn:E. cbn [snd fst] in *.
+  apply andb_true_iff in Hr. destruct Hr as [Hr Hacc]. apply andb_true_iff in Hr. destruct Hr as [Hr Hbox].
+  apply andb_true_iff in Hr. destruct Hr as [Hok _].
+  cbn [map rows_ttx]. rewrite (brow_boxed r Hbox). rewrite (ttx_row_rendered None (br_row r) Hok).
+  unfold denote_trows. cbn [map filter]. destruct (denote_trow None (br_row r)) as [l acc'] eqn:E. cbn [snd fst] in *.
   destruct acc'; [discriminate|]. rewrite (IH _ Hrs). unfold denote_trows. destruct l as [|x l'].
   - reflexivity.
   - cbn [rev]. rewrite <- app_assoc. reflexivity.
@@ -96,16 +123,17 @@ Qed.
 
 Theorem rows_ttx_rendered rows : trows_ok rows = true ->
   length (tfield_bytes rows) = 112%nat /\
-  split_byte 138 (tfield_bytes rows) = map srow_cells rows /\
+  split_byte 138 (tfield_bytes rows) = map brow_cells rows /\
   rows_ttx (split_byte 138 (tfield_bytes rows)) None [] = (denote_trows rows, None).
 Proof.
   unfold trows_ok. intros H. apply andb_true_iff in H. destruct H as [H HL]. apply andb_true_iff in H. destruct H as [Hne Hall].
   apply Nat.eqb_eq in HL.
-  assert (S : split_byte 138 (tfield_bytes rows) = map srow_cells rows).
+  assert (S : split_byte 138 (tfield_bytes rows) = map brow_cells rows).
   { unfold tfield_bytes. apply split_join_rows; [destruct rows; [discriminate Hne | discriminate]|].
     apply Forall_forall. intros bs Hin. apply in_map_iff in Hin. destruct Hin as (r & <- & Hr).
     pose proof (proj1 (forallb_forall _ _) Hall r Hr) as Hk. unfold trow_okb in Hk.
-    apply andb_true_iff in Hk. destruct Hk as [Hk _]. apply andb_true_iff in Hk. destruct Hk as [_ Hb].
+    apply andb_true_iff in Hk. destruct Hk as [Hk _]. apply andb_true_iff in Hk. destruct Hk as [Hk _].
+    apply andb_true_iff in Hk. destruct Hk as [_ Hb].
     intros Hin. pose proof (proj1 (forallb_forall _ _) Hb 138 Hin) as Hc. vm_compute in Hc. discriminate. }
   split; [exact HL|]. split; [exact S|]. rewrite S. exact (rows_ttx_fold rows [] Hall).
 Qed.
